@@ -39,13 +39,35 @@ _AMB_CTX = None
 _AMB_N = 0
 
 
-def _ambient_context():
+def _ambient_context(key=''):
+    """One of two unusual decimal contexts, chosen by the call itself (a pure function of its arguments: the same call always
+    runs under the same settings, so replays and shrinking stay deterministic)."""
     import decimal
-    global _AMB_CTX, _AMB_N
+    import zlib
+    global _AMB_CTX
     if _AMB_CTX is None:
         _AMB_CTX = [decimal.Context(prec=6, rounding=decimal.ROUND_FLOOR), decimal.Context(prec=3, rounding=decimal.ROUND_UP)]
-    _AMB_N += 1
-    return _AMB_CTX[_AMB_N % 2]
+    return _AMB_CTX[zlib.crc32(key.encode('utf-8', 'replace')) % 2]
+
+
+class ambient(object):
+    """Context manager form of the ambient settings (used by the drivers that call the library directly)."""
+
+    def __init__(self, key=''):
+        self.key = key
+
+    def __enter__(self):
+        if AMBIENT:
+            import decimal
+            self.old = decimal.getcontext()
+            decimal.setcontext(_ambient_context(self.key).copy())
+        return self
+
+    def __exit__(self, *a):
+        if AMBIENT:
+            import decimal
+            decimal.setcontext(self.old)
+        return False
 
 
 def call(f, *a, **k):
@@ -54,7 +76,11 @@ def call(f, *a, **k):
         import decimal
         import warnings
         old = decimal.getcontext()
-        decimal.setcontext(_ambient_context().copy())
+        try:
+            key = '%s%r%r' % (getattr(f, '__name__', ''), a, sorted(k.items()))
+        except Exception:
+            key = getattr(f, '__name__', '')
+        decimal.setcontext(_ambient_context(key).copy())
         try:
             with warnings.catch_warnings():
                 warnings.simplefilter('error')
